@@ -36,9 +36,12 @@ action try_handler {
 }
 
 action try_handler_simple {
-  _, err = handler.HandleArrayValue(data[p:])
+  pp, err = handler.HandleArrayValue(data[p:])
   if err != nil {
     return p, stack, err
+  }
+  if pp < 0 || pp > pe - p {
+    return p, stack, errPOutOfRange
   }
 }
 
